@@ -116,7 +116,13 @@ def _classify(op, a, b):
                             else:
                                 add("formula-differs", f"sheet {i} {ref}: library {gp!r} file {gq!r}")
                         if fp[4] != fq[4]:
-                            add("style-facts-differ", f"sheet {i} {ref}: library {fp[4]} file {fq[4]}")
+                            # nf _ font _ fill _ border _ alignment _ protection; known finding: the library's xf inherits the
+                            # alignment / protection of cellStyleXfs[0] where the file's xf has none (all other facts equal)
+                            xa, xb = fp[4].split("_"), fq[4].split("_")
+                            if len(xa) == len(xb) == 6 and xa[:4] == xb[:4] and all(u == w or (w == "-" and u != "-") for u, w in zip(xa[4:], xb[4:])):
+                                add("style-alignment-from-cell-style", f"sheet {i} {ref}: library {'_'.join(xa[4:])} file {'_'.join(xb[4:])}")
+                            else:
+                                add("style-facts-differ", f"sheet {i} {ref}: library {fp[4]} file {fq[4]}")
                     elif key == "links" and len(fp) == len(fq) == 5:
                         if fq[1] == "e" and fq[3] != "~" and fp[2] == fq[2] and fp[4] == fq[4]:
                             add("hyperlink-location-with-rid", f"sheet {i} {ref}: file target {_unhex(fq[2])!r} + location {_unhex(fq[3])!r}; library keeps one string")
@@ -134,7 +140,7 @@ def _classify(op, a, b):
 
 
 PROP = {
-    "thm": ["Umya.Thm.C03", "Umya.Thm.C03Cell", "Umya.Thm.C03Sheet", "Umya.Thm.C03Gen"],
+    "thm": ["Umya.Thm.C03", "Umya.Thm.C03Cell", "Umya.Thm.C03Sheet", "Umya.Thm.C03Gen", "Umya.Thm.C03Book"],
     "harness": "c03",
     "level": "translation_validation",
     "stateful": True,
@@ -163,14 +169,23 @@ PROP = {
                   "C03_shared_formula_tokens (C03_shared_formula lifted from one reference to any token list of non-reference tokens and well-formed references, from C09_translate_partial), "
                   "C03_sst (the shared-strings table the library builds holds at every index the decoder's rstText, <si/> / <t/> / runs / phonetic runs included; C03_sst_cell composes it with t=s cells), "
                   "C03_rels + C03_hyperlinks (r:id -> first relationship with that Id -> Target, location, tooltip: link by link the decoder's Link, for any number of links; C03_hyperlinks_is_decodeSheet), "
-                  "C03_sheet_list (names, states, r:id and the relationship each sheet selects), C03_merges_partial, C03_defined_names_partial.",
+                  "C03_sheet_list (names, states, r:id and the relationship each sheet selects), C03_merges_partial, C03_defined_names_partial. "
+                  "Style resolution through cellXfs (Thm/C03Book.lean, model Umya/Model/ReaderStyle.lean built from the C05 codec models Umya.StyleCodec.*.read and Umya.Style.pick; decoder Spec.Sml.styleTable, "
+                  "extended for this from ECMA-376 18.8 with FontV / FillV / BorderV / AlignV / ProtV and the apply* attributes): C03_style_resolution (for EVERY styles.xml tree with the explicit decidable validStyles - any "
+                  "number of numFmts, fonts, fills, borders, xfs; children in any order; optional children / attributes present or not; apply* flags 0 / 1 / true / false / absent - the model of Stylesheet::set_attributes + make_style "
+                  "does not panic and maked_style_list holds at EVERY index the facts the decoder assigns to that xf: font name / size / bold / italic / underline / strike / colour, pattern fill type and both colours, the five border edges "
+                  "with style and colour and the two diagonal flags, alignment (horizontal, vertical, wrapText, textRotation), number-format id and custom code, protection), C03_style_cell (composed with a cell's s attribute and "
+                  "Spec.decodeCell's style index), C03_style_cell_unstyled, C03_style_components (font, fill, border, alignment, protection, xf: one statement each), and the refutation "
+                  "C03_style_alignment_from_cell_style_fails (known finding, corpus issue_210.xlsx).",
     "level_note": "The file-level agreement is validated per file, NOT proved for all valid files: there is no Lean model of the whole reader. The model of the cell reader and of the position rule "
                   "(Umya/Model/Reader.lean: readCell, stringItem, sheetPositions) is tied to the code indirectly: the driver runs it next to the spec on every <c> and every <sheetData> of every file; "
                   "cells are reported as model-vs-spec-cells in the informational part of the reply, a POSITION difference on a file the spec accepts is put into the compared part (modelpos=) and fails the check "
                   "(class model-positions-differ-from-spec); the spec is compared with the implementation by the oracle, so on a passing file model, spec and implementation agree pairwise on the positions. "
 "The model of the reader ABOVE the cell level (Umya/Model/ReaderSheet.lean: readRows / readSheetData with codeTr, readSst, readRels, readHyperlinks, readMerges, readSheetList, readDefinedNames) is tied "
                   "to the code directly: after `c03 decode` every case sends `c03 model`; the driver runs the model on the lexed parts (every sheet part of the package) and prints the modelled components of the view "
-                  "(sheet list, defined names, per sheet cells with value / kind / formula / style facts through the model's style index, merges, links); the harness prints the same components of the workbook the LIBRARY loaded; "
+                  "(sheet list, defined names, per sheet cells with value / kind / formula and the RESOLVED effective style facts of every cell - the model of the style sheet reader (readStyleSheet, `cf` = identity, float texts compared as binary64 bits) "
+                  "indexed by the cell's s; a cell without s shows no style of its own -, merges, links); the harness prints the same components of the workbook the LIBRARY loaded (facts_full: public getters of Style / Font / Fill / Borders / Alignment / Protection / NumberingFormat, presence of a value from the Debug text); "
+                  "a styles part whose elements use the tag form the library does not see (children of font / patternFill / edge / xf and numFmt as start+end tag, <fill/> as empty element) is answered `unmodelled`; "
                   "a difference is class model-reader-differs:* and no known finding excuses it (the model follows the code, deviations included). Packages whose parts use comments / CDATA, the tag forms of known finding "
                   "C03-edge-start-end-tag-form or prefixed SpreadsheetML element names are answered `unmodelled` (2 of 365 cases in the quick tier: edge 3 and edge 4; 363 compared). "
                   "Trusted: the Lean decoder (spec, ~900 lines, executed, not "
@@ -183,12 +198,16 @@ PROP = {
                         "C03_sheet", "C03_sheet_decoder", "C03_sheet_is_decodeSheet", "C03_sheet_code", "C03_shared_formula_tokens",
                         "C03_sst", "C03_sst_is_decoder", "C03_sst_cell", "C03_rels", "C03_hyperlinks", "C03_hyperlinks_is_decodeSheet",
                         "C03_hyperlink_location_with_rid_fails", "C03_merges_partial", "C03_merges_is_decodeSheet", "C03_sheet_list",
-                        "C03_defined_names_partial"],
+                        "C03_defined_names_partial",
+                        "C03_style_resolution", "C03_style_cell", "C03_style_cell_unstyled", "C03_style_components",
+                        "C03_style_alignment_from_cell_style_fails"],
     "rule": "case = one xlsx file: `c03 reset file <corpus file>`, `c03 reset gen <seed>` (grammar derivation from the seed; productions listed at the top of harness/src/c03.rs and "
             "counted as prod.* in the distribution: cell encodings t=absent/n/s/str/inlineStr/b/e with and without formula, number forms, shared/inline strings plain/rich/phonetic/"
             "xml:space/looks-typed, entities and character references in text and attributes, shared-formula blocks with the master anywhere in its ref and children right/below/"
             "left-below, array formulas, optional r/spans/s, row attributes, col spans incl. max=16384, 1-4 sheets with escaped names, hidden sheets, arbitrary part names and "
-            "relationship ids, defined names global/local/constant/multi-area, hyperlinks external/location/both/tooltip/display, one table, a styles part with 1-7 xfs), "
+            "relationship ids, defined names global/local/constant/multi-area, hyperlinks external/location/both/tooltip/display, one table, a styles part with 1-8 xfs over 6 fonts / 6 fills / 3 borders (xfs share components; "
+            "font children in different orders, missing sz / name, <b val=0>, underline forms, strike, colours rgb / theme+tint / indexed; pattern fill without patternType; diagonal border; every apply* flag independently absent / 1 / 0 / true / false; "
+            "alignment and protection children; built-in and custom number formats)), "
             "`c03 reset edge <k>` (13 hand-written boundary packages: edge 12 = the non-vacuity example of C03_sheet (two shared groups, children right / below-left, a row and cells without r, inline string, <si/>), edge 13 = the witness of C03_hyperlink_location_with_rid_fails next to valid links and merges; shared-formula blocks at the grid edge, start/end-tag forms, CDATA / comments, literal white space in attributes, t=\"b\" with true / false, a string item with t and runs, an empty <si/>, blanks at the ends of texts). Every part is one request, `c03 decode` compares the library's view with the decoder's, `c03 model` the library's with the reader model's. Only the case headers of a replay are acted on. "
             "non-trivial = every part / decode request; distinct = distinct request line",
     "trusted_base": TB_COMMON + ["independent decoder Umya/Spec/XmlLex.lean + Sml.lean + SharedFormula.lean + Double.lean (executed, not verified against the standards' text)",
@@ -207,6 +226,15 @@ PROP = {
                     "C03_sst: every si a validRst; C03_hyperlinks: validHyperlinks (an r:id link's relationship exists and the link has no location - known finding C03-hyperlink-location-with-rid, refuted by "
                     "C03_hyperlink_location_with_rid_fails, edge 13 - ; a link without r:id has location) and RelsAgree (from C03_rels: every Relationship carries Id, Type, Target); "
                     "C03_sheet_list: name, sheetId, r:id present; C03_defined_names_partial: localSheetId fits u32, content without blanks at its ends (trim_text)",
+                    "C03_style_resolution, hypothesis validStyles (explicit, decidable; Lemmas/ReaderStyle*.lean document each conjunct): unprefixed element names in the root and the tables; each table (numFmts, fonts, fills, borders, cellStyleXfs, cellXfs) at most once; "
+                    "numFmt: numFmtId an unsigned decimal fitting u32 and formatCode present (the library unwraps both), ids pairwise different (the library's map keeps the last, the decoder finds the first); font: each of name sz b i u strike color at most once, no rFont, "
+                    "name / sz / scheme carry val, family / charset val an i32 (unwraps), u val a word of ST_UnderlineValues, colour attributes not repeated and indexed / theme unsigned decimals fitting u32; fill: at most one patternFill, NO gradientFill (outside the model), "
+                    "patternType a word of ST_PatternType, at most one fgColor / bgColor; border: each of left right top bottom diagonal at most once, style a word of ST_BorderStyle, at most one color per edge; xf: the four ids unsigned decimals fitting u32, at most one alignment "
+                    "(horizontal / vertical words of their enumerations, textRotation fitting u32) and one protection; for every cell xf the font / fill / border id inside its table where the component is applied, an applied numFmtId defined in numFmts or one of the library's built-in ids "
+                    "(table regenerated from the source; other ids leave the library's style without number format while the decoder shows the id: outside); defNeutral: the first xf of cellStyleXfs carries no apply* attribute and no alignment / protection child "
+                    "(known finding C03-style-alignment-from-cell-style otherwise)",
+                    "the style theorems are parametric in `cf` (what `text.parse::<f64>().unwrap_or_default()` + Display make of a float text: font size, tints); the decoder's texts are compared through cf (xfFacts); the driver instantiates cf with the identity and compares bit patterns; "
+                    "the underline of a font without <u> is compared as `none` (has_value), although the public getter Font::get_underline() answers \"single\" for it (the enum's default); Color `auto` is not part of the facts; vertical / horizontal inner edges, indent and the other alignment attributes are not compared",
                     "the model reads the element tree: `<v/>` `<t/>` `<is/>` `<r/>` (Empty events, ignored by the library) are not distinguished from the start/end-tag forms; elements are matched by local name "
                     "(the library matches unprefixed names only); character data directly inside <c> is not modelled; usize is 64 bits",
                     "Rust's f64 parser is correctly rounded (the spec side computes the nearest binary64 exactly with integer arithmetic)"],
@@ -225,7 +253,10 @@ PROP = {
                         "two conjuncts of validCell exclude schema-valid cells on which the code deviates from the spec (proved witnesses, replayed as boundary packages, known findings): a string item with "
                         "both a plain t and runs (C03_cell_t_and_runs_fails, edge 7) and an inline <t> with blanks at its ends but no xml:space (C03_cell_edge_blanks_fails, edge 9)",
                         "C03_shared_formula is reference-level, C03_shared_formula_tokens token-list-level: that tokenizer and spec scanner cut a formula text into the same references is validated by the oracle only (the master/child bookkeeping is now C03_sheet)",
-                        "style resolution (cellXfs -> numFmt / font / fill) has no model and no theorem: oracle only, three facts per cell (number format, bold, fill)",
+                        "style resolution is proved on the tree-level model (C03_style_resolution) and tied per file through the resolved facts of every cell; NOT covered: gradient fills, cell styles (xfId is not read by the library: "
+                        "inheritance from cellStyleXfs[xfId] is neither modelled in the decoder nor done by the library beyond cellStyleXfs[0] - known finding C03-style-alignment-from-cell-style, C03_style_alignment_from_cell_style_fails), number-format ids "
+                        "that are neither defined in numFmts nor in the library's built-in table, the CODE of a built-in number format (the decoder shows the id only; ECMA-376 18.8.30 and the library's table differ for 14, 22, 37-40, 47), dxfs, "
+                        "row and column styles (still three facts per row / column through the decoder's xf index), the re-homing of a workbook-scoped defined name to a sheet (NOT visible in the compared view: a seeded change of the re-homing rule is NOT caught)",
                         "charts, drawings, comments, conditional formats, data validations, pivot tables, theme: not compared",
                         "the two corpus files > 1 MB only in the thorough tier"],
     "technique": "independent XML/OPC/SpreadsheetML decoder executed in Lean on every file (translation validation) + Lean theorems on unescaping, cell elements of every type, positions, whole sheetData with shared-formula groups, shared-strings table, hyperlinks / relationships, sheet list (model reader = spec decoder) + the reader model run against the implementation on every file",
